@@ -734,6 +734,8 @@ func (h *history) coq() (string, bool) {
 			kind = "SNoop"
 		case "versioned":
 			kind = "SVersioned"
+		case "local-quiet":
+			kind = "SLocalQ"
 		}
 		st = append(st, fmt.Sprintf("mkS %s %d %s %s %s [%s]%%nat", kind, s.node, zint(int64(s.cid)), coqBool(s.errText != ""), row, strings.Join(hs, ";")))
 	}
